@@ -79,6 +79,8 @@ def compare_group(impl, ref, mech_prefix):
         return (f"{mech_prefix}:length", f"{impl.size} entries, reference {want.size} (data points {want.size - len(ref['penalties'])} + penalties {len(ref['penalties'])})", float("inf"))
     npen = len(ref["penalties"])
     nres = want.size - npen
+    if not np.isfinite(impl).all() and np.isfinite(want).all():
+        return (f"{mech_prefix}:non-finite", f"{int((~np.isfinite(impl)).sum())} non-finite penalty entries where the reference objective is finite", float("inf"))
     ir, wr = np.sort(impl[:nres]), np.sort(want[:nres])
     scale = max(float(np.abs(wr).max()) if nres else 0.0, 1.0)
     t = T.lsq_tol(20, 6, scale, ref["kappa"])
